@@ -96,12 +96,31 @@ def R2_locked_row(ctx):
         oka = all(bb not in wo for bb in ok_blocks if bb in arm) and any(bb in arm for bb in ok_blocks)
     ctx.check(oka, "ok=>written", "the File arm can return Ok(()) without having written the row", b.where())
     # Combined forwards to all
-    rec = b.calls_to(SINK + "::write_response")
-    okc = len(rec) == 1 and innermost_loop(b, rec[0].bb) is not None
-    if okc:
-        a0 = nosite(deep_strip(tm.operand(rec[0].args[0], rec[0].bb)))
-        okc = contains(a0, lambda s: s == ("field", ("variant", ("arg", 1), "Combined"), "0")) and not [x for x in calls_in(a0) if re.search(r"Iterator>?::(take|skip|filter|step_by)$", x[1])] and nosite(deep_strip(tm.operand(rec[0].args[1], rec[0].bb))) == ("arg", 2)
-        okc = okc and error_flow(F, b, rec[0], tm)["ok"]
+    # (a loop over the inner sinks with `?`, or try_for_each over them)
+    COMB = ("field", ("variant", ("arg", 1), "Combined"), "0")
+    TRUNC = r"Iterator>?::(take|skip|filter|step_by|take_while|skip_while|filter_map|rev)$"
+    okc = False
+    for body in tree_of(F, b.path):
+        rec = body.calls_to(SINK + "::write_response")
+        if len(rec) != 1:
+            continue
+        btm = tm if body is b else Terms(body)
+        a0 = clean(btm.operand(rec[0].args[0], rec[0].bb))
+        a1 = clean(btm.operand(rec[0].args[1], rec[0].bb))
+        if body is b:
+            okc = innermost_loop(b, rec[0].bb) is not None and contains(a0, lambda q: q == COMB) and re.search(r"::next$", a0[1] if a0[0] == "call" else "") is not None and not [x for x in calls_in(a0) if re.search(TRUNC, x[1])] and a1 == ("arg", 2)
+            okc = okc and error_flow(F, b, rec[0], tm)["ok"]
+        else:
+            tf = [c for c in b.calls() if c.callee and itm(c.callee, "try_for_each") and tm.operand(c.args[1], c.bb)[0] == "closure" and tm.operand(c.args[1], c.bb)[1] == body.path]
+            if len(tf) != 1 or body.natural_loops():
+                continue
+            cl = tm.operand(tf[0].args[1], tf[0].bb)
+            caps = [clean(x) for x in cl[2]]
+            a1 = rewrite(a1, lambda y: caps[int(y[2])] if y[0] == "field" and y[1] == ("arg", 1) and str(y[2]).isdigit() and int(y[2]) < len(caps) else None)
+            recv = clean(tm.operand(tf[0].args[0], tf[0].bb))
+            okc = a0 == ("arg", 2) and a1 == ("arg", 2) and contains(recv, lambda q: q == COMB) and not [x for x in calls_in(recv) if re.search(TRUNC, x[1])]
+            okc = okc and try_propagation(body, rec[0])["kind"] in ("propagated", "returned") and try_propagation(b, tf[0], tm)["kind"] in ("propagated", "returned")
+        break
     ctx.check(okc, "combined-forwards-to-all", "Combined does not forward the response to every inner sink (propagating errors)", b.where())
 
 
@@ -116,36 +135,179 @@ def R3_every_response_once(ctx):
             if not p.startswith(root.path + "::{closure"):
                 continue
             tm = Terms(b)
-            ws = b.calls_to(SINK + "::write_response")
-            rs = b.calls_to(APP + "run_single_query")
+            # (calls made inside a new helper extracted from the closure are seen at the helper's call site)
+            ws = [c for c in b.calls_deep() if c.callee == SINK + "::write_response"]
+            rs = [c for c in b.calls_deep() if c.callee == APP + "run_single_query"]
             if not ws and not rs:
                 continue
             found.append(p)
             ok = len(ws) == 1 and len(rs) == 1
             if ok:
-                resp = unmut(nosite(strip_try(deep_strip(tm.call_term(rs[0].term, rs[0].bb)))))
-                arg = unmut(nosite(deep_strip(tm.operand(ws[0].args[1], ws[0].bb))))
-                ok = arg == resp and b.dominates(rs[0].bb, ws[0].bb) and innermost_loop(b, ws[0].bb) is None
+                w, r_ = ws[0], rs[0]
+                resp = clean(tm.call_term(r_.term, r_.bb))
+                arg = clean(tm.operand(w.args[1], w.bb))
+                if isinstance(w, VirtualCallSite) and isinstance(r_, VirtualCallSite) and w.via is r_.via:
+                    ib = w.inner.body
+                    order = ib.dominates(r_.inner.bb, w.inner.bb) and innermost_loop(ib, w.inner.bb) is None
+                elif not isinstance(w, VirtualCallSite) and not isinstance(r_, VirtualCallSite):
+                    order = b.dominates(r_.bb, w.bb)
+                else:
+                    order = b.dominates(r_.bb, w.bb) and r_.bb != w.bb
+                ok = arg == resp and order and innermost_loop(b, w.bb) is None
                 # the closure runs once per query of the batch: its query argument is the element
-                ok = ok and nosite(deep_strip(tm.operand(rs[0].args[0], rs[0].bb)))[0] in ("arg", "field")
+                ok = ok and clean(tm.operand(r_.args[0], r_.bb))[0] in ("arg", "field")
             ctx.check(ok, "%s:write-each-response" % fn, "a query's response is not handed to write_response exactly once", b.where(), detail="write_response(run_single_query(q))")
         ctx.check(len(found) == 1, "%s:per-query-closure" % fn, "expected one per-query closure, found %d" % len(found), root.where())
     rb = F.need(APP + "CompassApp::run")
     tm = Terms(rb)
+    okw = False
+    ok_blocks = [bb for bb, blk in enumerate(rb.blocks) if not blk["cleanup"] for st_ in blk["stmts"] if st_["k"] == "assign" and st_["place"]["l"] == 0 and not st_["place"]["p"] and st_["rv"]["k"] == "agg" and st_["rv"].get("variant") == "Ok"]
+    TRUNC = r"Iterator>?::(take|skip|filter|step_by|take_while|skip_while|filter_map)$"
+    done_bb = None    # the block reached when all error responses were written
     ws = rb.calls_to(SINK + "::write_response")
-    okw = len(ws) == 1 and innermost_loop(rb, ws[0].bb) is not None
-    if okw:
-        a = nosite(deep_strip(tm.operand(ws[0].args[1], ws[0].bb)))
+    if len(ws) == 1 and innermost_loop(rb, ws[0].bb) is not None:
         lp = innermost_loop(rb, ws[0].bb)
         nx = [c for c in rb.calls() if c.func.get("method") == "next" and c.bb in lp[1]]
-        okw = len(nx) == 1 and not [x for x in calls_in(deep_strip(tm.operand(nx[0].args[0], nx[0].bb))) if re.search(r"Iterator>?::(take|skip|filter|step_by)$", x[1])]
+        okw = len(nx) == 1 and not [x for x in calls_in(deep_strip(tm.operand(nx[0].args[0], nx[0].bb))) if re.search(TRUNC, x[1])]
+        okw = okw and clean(tm.operand(ws[0].args[1], ws[0].bb)) == clean(tm.call_term(nx[0].term, nx[0].bb))
         # written before any return of these error responses
         okw = okw and error_flow(F, rb, ws[0], tm)["ok"]
+        src = clean(tm.operand(nx[0].args[0], nx[0].bb)) if nx else None
+        if okw:
+            for (x, y) in loop_exit_edges(rb, lp[1]):
+                t = rb.blocks[x]["term"]
+                if t["k"] == "switch":
+                    d, names = switch_discr_info(rb, x)
+                    if names and switch_target(t, names, "None") == y and clean(tm.operand(d, x)) == ("discr", clean(tm.call_term(nx[0].term, nx[0].bb))):
+                        done_bb = y
+    elif not ws:
+        # error_inputs.iter_mut().try_for_each(|e| writer.write_response(e))?
+        for c in rb.calls():
+            if not (c.callee and itm(c.callee, "try_for_each")):
+                continue
+            cl = tm.operand(c.args[1], c.bb)
+            if cl[0] != "closure" or cl[1] not in F.bodies:
+                continue
+            cb = F.bodies[cl[1]]
+            cws = cb.calls_to(SINK + "::write_response")
+            if len(cws) != 1 or cb.natural_loops():
+                continue
+            ctm = Terms(cb)
+            src = clean(tm.operand(c.args[0], c.bb))
+            okw = clean(ctm.operand(cws[0].args[1], cws[0].bb)) == ("arg", 2) and not [x for x in calls_in(src) if re.search(TRUNC, x[1])]
+            okw = okw and try_propagation(cb, cws[0], ctm)["kind"] in ("propagated", "returned") and try_propagation(rb, c, tm)["kind"] == "propagated"
+            # the block that continues after `?`
+            for sbb, dt, names, t in switches(rb, tm):
+                d = clean(dt)
+                if names and d[0] == "discr" and contains(d, lambda q: q == clean(tm.call_term(c.term, c.bb))) and "Continue" in names.values():
+                    done_bb = switch_target(t, names, "Continue")
+    # what is written is the error responses that run returns, all of them
+    if okw:
+        okw = src is not None and src[0] == "call" and re.search(r"::(iter_mut|iter)$|::into_iter$", src[1]) is not None
+    # every successful return of run comes after all of them were written
+    okw = okw and bool(ok_blocks) and done_bb is not None and all(rb.dominates(done_bb, bb) for bb in ok_blocks)
     ctx.check(okw, "run:input-errors-written", "the error responses of queries that failed input processing are not all written to the sink", rb.where(), detail="for e in error_inputs { write_response(e) }")
 
 
 def chain_names(t):
     return [re.sub(r"<[^<>]*>", "", x[1]).split("::")[-1] for x in calls_in(t)]
+
+
+def _under(body, truth, variant=None):
+    """terms of `body` restricted to the paths on which the given bool terms have the given values (and, optionally, the
+    receiver is the given enum variant)"""
+    tm0 = Terms(body)
+    removed = []
+    for sbb, dt, names, t in switches(body, tm0):
+        d = clean(dt)
+        if names is None:
+            neg = False
+            while d[0] == "un" and d[1] == "Not":
+                d, neg = d[2], not neg
+            if d in truth:
+                f_, tr_ = bool_targets(t)
+                want = truth[d] != neg
+                removed.append((sbb, f_ if want else tr_))
+        elif variant is not None and d == ("discr", ("arg", 1)):
+            keep = switch_target(t, names, variant)
+            for tgt in set([x[1] for x in t["targets"]] + [t["otherwise"]]):
+                if tgt != keep:
+                    removed.append((sbb, tgt))
+    return partitioned_terms(body, removed)
+
+
+def _cells_source(F, fb, ftm, join):
+    """the sequence the cells of a row are computed from, and whether there is exactly one cell per element of it:
+    `src.map(cell).join(",")`, or a vector filled with one push per turn of a loop over src and joined afterwards"""
+    recv = clean(ftm.operand(join.args[0], join.bb))
+    bad = r"Iterator>?::(take|skip|filter|step_by|take_while|skip_while|filter_map|flat_map|chain)$|Itertools::(dedup|unique)"
+    t = recv
+    while t[0] == "call" and len(t[2]) == 1 and re.search(r"::(into_iter|iter)$", t[1]):
+        t = t[2][0]
+    if t[0] == "call" and itm(t[1], "map") and len(t[2]) == 2:
+        return t[2][0], not [x for x in calls_in(recv) if re.search(bad, x[1])] and len([x for x in calls_in(recv) if itm(x[1], "map")]) == 1
+    for e in elementwise_builds(fb):
+        if e["form"] == "loop" and e["site"].bb in ftm.live:
+            built = clean(ftm.operand(e["site"].args[0], e["site"].bb))
+            if built == t or contains(t, lambda q: q == built):
+                src = clean(e["src"])
+                return src, not [x for x in calls_in(src) if re.search(bad, x[1])]
+    return None, False
+
+
+def _order_of(F, t, mp, truth, depth=0):
+    """(ordering, what is enumerated) of a sequence over the CSV mapping: ordering in {'by-key', 'reversed', None (insertion order)},
+    enumerated in {'keys', 'entries'}; None when the sequence is not recognised as an ordering of all entries of the mapping"""
+    if depth > 6:
+        return None
+    while t[0] == "call" and len(t[2]) == 1 and re.search(r"::(into_iter|iter)$|Iterator>?::(collect|copied|cloned)(\{.*\})?$|Itertools::collect_vec$", t[1]) and t[2][0] != mp:
+        t = t[2][0]
+    if t[0] != "call":
+        return None
+    name = t[1].split("{")[0]
+    a = t[2]
+    if a and a[0] == mp and len(a) == 1:
+        if name.endswith("::keys"):
+            return (None, "keys")
+        if name.endswith("::iter"):
+            return (None, "entries")
+        return None
+    if len(a) == 1 and name.endswith("Itertools::sorted"):
+        inner = _order_of(F, a[0], mp, truth, depth + 1)
+        return ("by-key", "keys") if inner == (None, "keys") else None
+    if len(a) == 2 and name.endswith("Itertools::sorted_by_key") and a[1][0] == "closure" and a[1][1] in F.bodies:
+        inner = _order_of(F, a[0], mp, truth, depth + 1)
+        k = clean(Terms(F.bodies[a[1][1]]).return_term())
+        if inner == (None, "entries") and k == ("field", ("arg", 2), "0"):
+            return ("by-key", "entries")
+        if inner == (None, "keys") and k == ("arg", 2):
+            return ("by-key", "keys")
+        return None
+    if len(a) == 1 and itm(name, "rev"):
+        inner = _order_of(F, a[0], mp, truth, depth + 1)
+        return ("reversed", inner[1]) if inner is not None and inner[0] is None else None
+    if len(a) == 2 and itm(name, "map") and a[1][0] == "closure" and a[1][1] in F.bodies:
+        inner = _order_of(F, a[0], mp, truth, depth + 1)
+        k = clean(Terms(F.bodies[a[1][1]]).return_term())
+        if inner is not None and inner[1] == "entries" and k == ("field", ("arg", 2), "0"):
+            return (inner[0], "keys")
+        return None
+    # a new helper that takes (mapping, sorted): read its result under the same value of `sorted`
+    known = known_functions()
+    if name in F.bodies and known and name not in known and "{closure" not in name and mp in a:
+        hb = F.bodies[name]
+        if hb.natural_loops():
+            return None
+        htruth = {}
+        for i_, x in enumerate(a):
+            if x in truth:
+                htruth[("arg", i_ + 1)] = truth[x]
+            elif x != mp:
+                return None
+        htm = _under(hb, htruth)
+        rt = substitute_args(clean(htm.return_term()), a)
+        return _order_of(F, rt, mp, truth, depth + 1)
+    return None
 
 
 def R4_header(ctx):
@@ -186,49 +348,28 @@ def R4_header(ctx):
     art = nosite(deep_strip(Terms(ab).return_term()))
     ap = [x for x in calls_in(art) if x[1].endswith("OpenOptions::append")]
     ctx.check(len(ap) == 1 and ap[0][2][1] == ("const", "bool", True), "append:open-append", "the file is not opened with append(true)", ab.where(), detail="OpenOptions::new().append(true)")
-    # header vs rows
+    # header vs rows: the sequence of columns behind the header and behind each row is the same ordering of the same mapping
     hb = F.need(FMT + "::initial_file_contents")
     fb = F.need(FMT + "::format_response")
-    hdrs = {}
-    for r in table(hb):
-        if r.end == "return" and r.sel.get(("arg", 1)) == "Csv":
-            srt = [cond_truth(l) for t, l in r.bools if unmut(t) == ("field", ("variant", ("arg", 1), "Csv"), "sorted")]
-            if srt:
-                hdrs[srt[0]] = r.ret
-    ftm = Terms(fb)
-    joins = [c for c in fb.calls() if c.callee and c.callee.endswith("Itertools::join")]
-    rows = {}
-    sw = None
-    for sbb, dt, names, t in switches(fb, ftm):
-        if unmut(nosite(deep_strip(dt))) == ("field", ("variant", ("arg", 1), "Csv"), "sorted"):
-            sw = (sbb,) + bool_targets(t)
-    if sw is not None:
-        for c in joins:
-            key = True if fb.dominates(sw[2], c.bb) else (False if fb.dominates(sw[1], c.bb) else None)
-            rows[key] = nosite(deep_strip(ftm.operand(c.args[0], c.bb)))
     mp = ("field", ("variant", ("arg", 1), "Csv"), "mapping")
+    srt_t = ("field", ("variant", ("arg", 1), "Csv"), "sorted")
     for srt in (True, False):
-        h, rw = hdrs.get(srt), rows.get(srt)
-        if h is None or rw is None:
-            ctx.bad("csv:order:%s" % ("sorted" if srt else "unsorted"), "header or row pipeline not found for sorted=%s" % srt, fb.where())
-            continue
-        hn, rn = chain_names(h), chain_names(rw)
-        hsrc = [x for x in calls_in(h) if x[1].endswith("::keys") and unmut(x[2][0]) == mp]
-        rsrc = [x for x in calls_in(rw) if x[1].endswith("::iter") and unmut(x[2][0]) == mp]
-        if srt:
-            hs = [x for x in calls_in(h) if re.search(r"Itertools::sorted\w*$", x[1])]
-            rs = [x for x in calls_in(rw) if re.search(r"Itertools::sorted\w*$", x[1])]
-            ok = len(hs) == 1 and len(rs) == 1 and hs[0][1].endswith("Itertools::sorted") and rs[0][1].endswith("Itertools::sorted_by_key")
-            if ok:
-                k = nosite(deep_strip(Terms(F.need(rs[0][2][1][1])).return_term()))
-                ok = k == ("field", ("arg", 2), "0")
-            other = [n for n in hn + rn if n in ("rev", "sorted_by", "sorted_unstable", "sorted_by_cached_key", "filter", "skip", "take", "dedup")]
-            ok = ok and not other
-        else:
-            ok = hn.count("rev") == 1 and rn.count("rev") == 1 and not [n for n in hn + rn if n.startswith("sorted") or n in ("filter", "skip", "take", "dedup")]
-        ctx.check(ok and len(hsrc) == 1 and len(rsrc) == 1, "csv:order:%s" % ("sorted" if srt else "unsorted"), "CSV header order (%s) and row order (%s) do not use matching ordering over the same mapping" % ([n for n in hn if n in ("sorted", "sorted_by_key", "rev", "keys", "iter")], [n for n in rn if n in ("sorted", "sorted_by_key", "rev", "keys", "iter")]), fb.where(), detail="%s <-> %s" % ("sorted()" if srt else "rev()", "sorted_by_key(key)" if srt else "rev()"))
-        maps = [x for x in calls_in(rw) if itm(x[1], "map")]
-        ctx.check(len(maps) == 1, "csv:one-cell-per-entry:%s" % srt, "rows are not one cell per mapping entry", fb.where())
+        inst = "csv:order:%s" % ("sorted" if srt else "unsorted")
+        with no_inline():
+            htm = _under(hb, {srt_t: srt}, "Csv")
+            ftm = _under(fb, {srt_t: srt}, "Csv")
+            hj = [c for c in hb.calls() if c.callee and re.search(r"Itertools::join$|::join$", c.callee) and c.bb in htm.live]
+            fj = [c for c in fb.calls() if c.callee and re.search(r"Itertools::join$|::join$", c.callee) and c.bb in ftm.live]
+            if len(hj) != 1 or len(fj) != 1:
+                ctx.bad(inst, "header or row pipeline not found for sorted=%s (joins: %d/%d)" % (srt, len(hj), len(fj)), fb.where())
+                continue
+            hsrc = clean(htm.operand(hj[0].args[0], hj[0].bb))
+            rsrc, one_cell = _cells_source(F, fb, ftm, fj[0])
+            ho = _order_of(F, hsrc, mp, {srt_t: srt})
+            ro = _order_of(F, rsrc, mp, {srt_t: srt}) if rsrc is not None else None
+        ok = ho is not None and ro is not None and ho[0] == ro[0] and ho[0] is not None and ho[1] == "keys" and ro[1] == "entries"
+        ctx.check(ok, inst, "CSV header order (%s) and row order (%s) do not use matching ordering over the same mapping" % (ho, ro), fb.where(), detail="header %s <-> rows %s" % (ho, ro))
+        ctx.check(one_cell, "csv:one-cell-per-entry:%s" % srt, "rows are not one cell per mapping entry", fb.where())
     # JSON
     jb = F.need(R + "response_output_format_json::format_response")
     got = {}
@@ -263,11 +404,31 @@ def R5_no_response_edits(ctx):
                 n += 1
                 key = nosite(deep_strip(tm.operand(c.args[1], c.bb))) if len(c.args) > 1 else None
                 guards = []
-                for sbb, t in controlling_true(b, tm, c.bb):
-                    if t[0] == "call" and t[1].endswith("Option::<T>::is_none") and t[2][0][0] == "call" and t[2][0][1].endswith("Value::get") and unmut(t[2][0][2][0]) == ("arg", 2) and t[2][0][2][1] == key:
-                        guards.append(sbb)
+                for sbb, t, truth in controlling(b, tm, c.bb):
+                    # the key is known to be absent: get(key).is_none() holds, or get(key).is_some() does not
+                    while t[0] == "un" and t[1] == "Not":
+                        t, truth = t[2], not truth
+                    if t[0] == "call" and re.search(r"Option::<T>::is_(none|some)$", t[1]) and t[2][0][0] == "call" and t[2][0][1].endswith("Value::get") and unmut(t[2][0][2][0]) == ("arg", 2) and t[2][0][2][1] == key:
+                        if t[1].endswith("is_none") == truth:
+                            guards.append(sbb)
                 ctx.check(bool(guards) and m == "index_mut", "%s:%s[%s]" % (short_fn_name(p), m, short(key) if key else ""), "the response's key %s is written/removed without a dominating `response.get(key).is_none()` check: existing information (e.g. the search error) can be replaced" % (short(key) if key else "?"), c.where(), detail="guarded by response.get(%s).is_none()" % (short(key) if key else ""))
     ctx.check(n >= 1, "matcher-live", "no write to the response found at all (matcher would be vacuous)", None)
+
+
+def controlling(b, tm, block):
+    """the bool conditions whose outcome is known when `block` runs: (switch block, condition term, its value)"""
+    out = []
+    for sbb, dt, names, t in switches(b, tm):
+        if names is not None:
+            continue
+        f, tr = bool_targets(t)
+        if tr is None or f is None or tr == f or sbb not in b.dom.get(block, ()):
+            continue
+        if b.dominates(tr, block) and not b.dominates(f, block):
+            out.append((sbb, nosite(deep_strip(dt)), True))
+        elif b.dominates(f, block) and not b.dominates(tr, block):
+            out.append((sbb, nosite(deep_strip(dt)), False))
+    return out
 
 
 def controlling_true(b, tm, block):
